@@ -1,5 +1,7 @@
-"""POSIX directory-tree model for C19 (mkdir/rmdir/unlink/stat/lstat/opendir/readdir/closedir), written from the man pages.
-State: st.ghost['fs'] : dict normalised-path -> ('d',) | ('f',) | ('l', target).  '' is the working directory."""
+"""POSIX directory-tree model for C19 (mkdir/rmdir/unlink/stat/lstat/opendir/readdir/closedir, open with O_CREAT/O_EXCL, close,
+rename), written from the man pages.
+State: st.ghost['fs'] : dict normalised-path -> ('d',) | ('f',) | ('l', target).  '' is the root directory, which is also the
+working directory (absolute and relative paths name the same entries); an empty path *string* names nothing (ENOENT)."""
 import ops
 from mem import MemError
 
@@ -65,6 +67,7 @@ def register(builtin):
         f = fs(st); p = cstr(st, args[0]); f.log.append(('mkdir', norm(p)))
         e = injected(f, 'mkdir')
         if e: return err(ex, st, e)
+        if p == '': return err(ex, st, ENOENT)          # an empty pathname names nothing
         n = norm(p)
         if n in f or n == '': return err(ex, st, EEXIST)
         pp, pe, perr = resolve(f, parent(n))
@@ -78,6 +81,7 @@ def register(builtin):
         f = fs(st); p = cstr(st, args[0]); f.log.append(('rmdir', norm(p)))
         e = injected(f, 'rmdir')
         if e: return err(ex, st, e)
+        if p == '': return err(ex, st, ENOENT)
         n, ent, er = resolve(f, p, follow=False)
         if ent is None: return err(ex, st, er)
         if ent[0] != 'd': return err(ex, st, ENOTDIR)
@@ -91,6 +95,7 @@ def register(builtin):
         f = fs(st); p = cstr(st, args[0]); f.log.append(('unlink', norm(p)))
         e = injected(f, 'unlink')
         if e: return err(ex, st, e)
+        if p == '': return err(ex, st, ENOENT)
         n, ent, er = resolve(f, p, follow=False)
         if ent is None: return err(ex, st, er)
         if ent[0] == 'd': return err(ex, st, EISDIR)
@@ -99,6 +104,7 @@ def register(builtin):
 
     def do_stat(ex, st, args, follow):
         f = fs(st); p = cstr(st, args[0])
+        if p == '': return err(ex, st, ENOENT)          # an empty pathname names nothing
         n, ent, er = resolve(f, p, follow=follow)
         if ent is None: return err(ex, st, er)
         mode = {'d': S_IFDIR | 0o755, 'f': S_IFREG | 0o644, 'l': S_IFLNK | 0o777}[ent[0]]
@@ -113,6 +119,7 @@ def register(builtin):
     @builtin('opendir')
     def b_opendir(ex, st, args, ins):
         f = fs(st); p = cstr(st, args[0])
+        if p == '': err(ex, st, ENOENT); return 0
         n, ent, er = resolve(f, p, follow=True)
         if ent is None: err(ex, st, er); return 0
         if ent[0] != 'd': err(ex, st, ENOTDIR); return 0
@@ -145,6 +152,63 @@ def register(builtin):
         del f.dirs[args[0]]
         B._free(ex, st, args[0], 'malloc')
         return 0
+
+    # open (creation only matters here), close, rename - for File::rename / File::copy style placeholder files
+    O_CREAT, O_EXCL = 0o100, 0o200
+    @builtin('open', 'open64')
+    def b_open(ex, st, args, ins):
+        f = fs(st); p = cstr(st, args[0]); flags = args[1] if isinstance(args[1], int) else ex.concretize(st, args[1], 32, 'open flags')
+        f.log.append(('open', norm(p)))
+        e = injected(f, 'open')
+        if e: return err(ex, st, e)
+        if p == '': return err(ex, st, ENOENT)
+        n, ent, er = resolve(f, p, follow=True)
+        if ent is None:
+            if er != ENOENT or not (flags & O_CREAT): return err(ex, st, er)
+            nn = norm(p); pp, pe, perr = resolve(f, parent(nn))
+            if pe is None: return err(ex, st, perr)
+            if pe[0] != 'd': return err(ex, st, ENOTDIR)
+            f[(pp + '/' if pp else '') + nn.rsplit('/', 1)[-1]] = ('f',)
+        else:
+            if (flags & O_CREAT) and (flags & O_EXCL): return err(ex, st, EEXIST)
+            if ent[0] == 'd' and (flags & 3): return err(ex, st, EISDIR)
+        fds = dict(st.ghost.get('fs_fds', {})); fd = 1000 + len(fds) + st.ghost.get('fs_fd_closed', 0); fds[fd] = n if ent is not None else norm(p); st.ghost['fs_fds'] = fds
+        return fd
+    _prev_close = B.TABLE.get('close')
+    @builtin('close')
+    def b_close(ex, st, args, ins):
+        fd = args[0]
+        if isinstance(fd, int) and fd >= 1000:
+            fds = dict(st.ghost.get('fs_fds', {}))
+            if fd not in fds: raise MemError('fs', 'close of a file descriptor that is not open (%d)' % fd)
+            del fds[fd]; st.ghost['fs_fds'] = fds; st.ghost['fs_fd_closed'] = st.ghost.get('fs_fd_closed', 0) + 1
+            return 0
+        return _prev_close(ex, st, args, ins)
+    @builtin('rename')
+    def b_rename(ex, st, args, ins):
+        f = fs(st); a = cstr(st, args[0]); b = cstr(st, args[1]); f.log.append(('rename', norm(a)))
+        e = injected(f, 'rename')
+        if e: return err(ex, st, e)
+        if a == '' or b == '': return err(ex, st, ENOENT)
+        na, ea, era = resolve(f, a, follow=False)
+        if ea is None: return err(ex, st, era)
+        nbn = norm(b); pp, pe, perr = resolve(f, parent(nbn))
+        if pe is None: return err(ex, st, perr)
+        if pe[0] != 'd': return err(ex, st, ENOTDIR)
+        nb = (pp + '/' if pp else '') + nbn.rsplit('/', 1)[-1]
+        eb = f.get(nb)
+        if nb == na: return 0
+        if eb is not None:
+            if ea[0] == 'd' and eb[0] != 'd': return err(ex, st, ENOTDIR)
+            if ea[0] != 'd' and eb[0] == 'd': return err(ex, st, EISDIR)
+            if eb[0] == 'd' and any(k != nb and parent(k) == nb for k in f): return err(ex, st, ENOTEMPTY)
+        if ea[0] == 'd' and (nb + '/').startswith(na + '/'): return err(ex, st, 22)
+        moved = [(k, v) for k, v in f.items() if k == na or k.startswith(na + '/')]
+        for k, v in moved: del f[k]
+        for k, v in moved: f[nb + k[len(na):]] = v
+        return 0
+    @builtin('vf_fs_open_fds')
+    def vf_fs_open_fds(ex, st, args, ins): return len(st.ghost.get('fs_fds', {}))
 
     # harness intrinsics
     @builtin('vf_fs_add')
